@@ -139,7 +139,7 @@ func (c *Ctx) freshOutputRule(p *Program, rule string, prefixes ...string) {
 		var hits []string
 		nf, ns, nx := 0, 0, 0
 		for f := range p.AllFuncs {
-			if f.Blocks == nil || f.Synthetic != "" || !isCirclFunc(f) {
+			if f.Blocks == nil || !sourceFunc(f) || !isCirclFunc(f) {
 				continue
 			}
 			rel := strings.TrimPrefix(funcPkgPath(f), circlPath+"/")
@@ -181,6 +181,7 @@ func init() {
 		registry[prop] = func(c *Ctx) {
 			prev(c)
 			if p := c.Prog("amd64"); p != nil {
+				c.Clauses = append(c.Clauses, prop+".freshout: an output element that an encoder combines with its old contents was first defined by the same function (the result does not depend on what the output buffer held)")
 				c.freshOutputRule(p, prop+".freshout", pres...)
 			}
 		}
